@@ -1,5 +1,109 @@
-import TuModel.Model.Dict
+/-
+  C20 — frequency dictionary (`Dictionary::create`) and closest-entry queries (`get_closest`).
+  Model: `Tu.countOf`, `Tu.countAll`, `Tu.topK`, `Tu.dictCreate`, `Tu.closestSpec` (Model/Dict.lean).
+-/
+import TuModel.Lemmas.DictL
 namespace Tu.C20
 open Tu
-theorem placeholder_topK_none (e : List (Tok × Nat)) : topK e none = e := rfl
+
+/-- counting is independent of the order in which lines / per-line count maps are merged (worker interleaving) -/
+theorem countOf_perm (a b : List Tok) (h : a.Perm b) (t : Tok) : countOf a t = countOf b t := by
+  unfold countOf
+  exact (h.filter _).length_eq
+
+/-- `countAll` is exactly the frequency table: distinct keys, each with its number of occurrences -/
+theorem countAll_spec (toks : List Tok) (t : Tok) (n : Nat) :
+    (t, n) ∈ countAll toks ↔ t ∈ toks ∧ n = countOf toks t := by
+  unfold countAll
+  simp only [List.mem_map, Prod.mk.injEq, List.mem_eraseDups]
+  constructor
+  · rintro ⟨t', ht', rfl, rfl⟩; exact ⟨ht', rfl⟩
+  · rintro ⟨ht, rfl⟩; exact ⟨t, ht, rfl, rfl⟩
+
+theorem countAll_keys_nodup (toks : List Tok) : ((countAll toks).map (·.1)).Nodup := by
+  unfold countAll
+  rw [List.map_map]
+  have : ((fun x : Tok × Nat => x.1) ∘ fun t => (t, countOf toks t)) = id := rfl
+  rw [this, List.map_id]
+  exact DictL.nodup_eraseDups toks
+
+theorem countAll_perm_mem (a b : List Tok) (h : a.Perm b) (e : Tok × Nat) :
+    e ∈ countAll a ↔ e ∈ countAll b := by
+  obtain ⟨t, n⟩ := e
+  rw [countAll_spec, countAll_spec, h.mem_iff, countOf_perm a b h]
+
+/-- the kept entries are entries … -/
+theorem topK_sub (entries : List (Tok × Nat)) (k : Option Nat) : ∀ e ∈ topK entries k, e ∈ entries := by
+  intro e he
+  cases k with
+  | none => exact he
+  | some k => exact (List.mem_filter.1 he).1
+
+/-- … an absent `max_size` keeps everything … -/
+theorem topK_none (entries : List (Tok × Nat)) : topK entries none = entries := rfl
+
+/-- … no omitted entry is more frequent than a kept one … -/
+theorem topK_dominates (entries : List (Tok × Nat)) (k : Nat) (x y : Tok × Nat)
+    (hx : x ∈ topK entries (some k)) (hy : y ∈ entries) (hny : y ∉ topK entries (some k)) : y.2 ≤ x.2 := by
+  simp only [topK, List.mem_filter, decide_eq_true_eq] at hx hny
+  apply Classical.byContradiction
+  intro hlt
+  have hlt' : x.2 < y.2 := by omega
+  have := DictL.rankOf_lt_of_lt entries x y (DictL.entryLt_of_freq_lt x y hlt') hy
+  exact hny ⟨hy, by omega⟩
+
+/-- … and exactly `min k n` entries are kept (keys distinct) -/
+theorem topK_length (entries : List (Tok × Nat)) (k : Nat) (hnd : (entries.map (·.1)).Nodup) :
+    (topK entries (some k)).length = min k entries.length :=
+  DictL.filter_rank_length entries k hnd
+
+/-- `freq_sum` is the total of the kept frequencies (by construction), and the created dictionary only depends
+on the multiset of tokens of the used lines -/
+theorem dictCreate_freqSum (lines : List (List Tok)) (ms mq : Option Nat) :
+    (dictCreate lines ms mq).freqSum = ((dictCreate lines ms mq).entries.map (·.2)).sum := rfl
+
+theorem dictCreate_entries_mem (lines : List (List Tok)) (mq : Option Nat) (e : Tok × Nat) :
+    e ∈ (dictCreate lines none mq).entries ↔
+      e.1 ∈ (match mq with | none => lines | some m => lines.take m).flatten ∧
+      e.2 = countOf (match mq with | none => lines | some m => lines.take m).flatten e.1 := by
+  obtain ⟨t, n⟩ := e
+  simp only [dictCreate, topK]
+  exact countAll_spec _ t n
+
+/-- every index returned by `closestSpec` is at minimal distance, and has the maximal frequency among the
+entries at minimal distance -/
+theorem closestSpec_ok (q : List (List Nat)) (es : List (List (List Nat) × Nat)) (norm : Bool) (idxs : List Nat) (f : Nat)
+    (h : closestSpec q es norm = some (idxs, f)) :
+    ∀ i ∈ idxs, ∃ e, es[i]? = some e ∧ e.2 = f ∧
+      ∀ e' ∈ es,
+        let d := fun (x : List (List Nat) × Nat) => (editDistance { swap := false, sid := false } q x.1, if norm then normDen q x.1 else 1)
+        (d e).1 * (d e').2 ≤ (d e').1 * (d e).2 ∧
+        ((d e').1 * (d e).2 ≤ (d e).1 * (d e').2 → e'.2 ≤ f) := by
+  rw [DictL.closestSpec_eq] at h
+  exact DictL.closestGen_ok _ (by
+    intro e
+    show 0 < (if norm then normDen q e.1 else 1)
+    split
+    · exact DictL.normDen_pos _ _
+    · exact Nat.one_pos) es idxs f h
+
+/-- `closestSpec` answers whenever the dictionary is non-empty, with at least one index -/
+theorem closestSpec_isSome (q : List (List Nat)) (es : List (List (List Nat) × Nat)) (norm : Bool) (hne : es ≠ []) :
+    (closestSpec q es norm).isSome = true := by
+  cases es with
+  | nil => exact absurd rfl hne
+  | cons e0 es => rfl
+
+/-! ### non-vacuity -/
+
+example : topK [([97], 3), ([98], 1), ([99], 3)] (some 2) = [([97], 3), ([99], 3)] := by decide
+example : topK [([97], 3), ([98], 1), ([99], 3)] (some 1) = [([99], 3)] := by decide
+example : topK [([97], 3), ([98], 1), ([99], 3)] (some 5) = [([97], 3), ([98], 1), ([99], 3)] := by decide
+example : countAll [[97], [98], [97], [99], [97], [98]] = [([97], 3), ([98], 2), ([99], 1)] := by decide
+example : (dictCreate [[[97], [98]], [[97]], [[99]]] (some 1) (some 2)).entries = [([97], 2)] := by decide
+example : (dictCreate [[[97], [98]], [[97]], [[99]]] (some 1) (some 2)).freqSum = 2 := by decide
+example : closestSpec [[97]] [([[98]], 2), ([[97], [98]], 5), ([[99]], 5)] false = some ([1, 2], 5) := by decide
+/-- the key-distinctness hypothesis of `topK_length` is needed: duplicates share a rank -/
+example : (topK [([97], 3), ([97], 3)] (some 1)).length = 2 := by decide
+
 end Tu.C20
